@@ -30,6 +30,14 @@ CHECKS = {
    text="JqProc specifies a run as a function of its key with no process-level state (TLC checks Deterministic / NoProcessState on the design). A history driver executes hundreds of keys (object printing/iterating programs, polluters of process-level state, method-using victims, random programs) several times at random positions in long-lived processes and in fresh processes; the recorded run history is validated by TLC against JqProc (trace validation): equal keys must always show equal observations. Open deviations are re-checked explicitly (named in KNOWN_FINDINGS.txt).",
    note="Sampling over keys and orders (seeded); observation = stdout + JSON output + outcome class.",
    tech="TLA+ spec of run determinism; TLC trace validation of recorded multi-run histories"),
+ "C05": dict(cat="model_checking", ref="5 (C05), 3, 4.4",
+   text="JqValue.tla transcribes the operator tables of DESIGN section 3 (exact dyadic rationals, byte strings); TLC enumerates every operator x every ordered pair of a 37-value universe (all kinds and boundary values), checks the algebraic laws of section 3.4 and that errors occur exactly on the marked cells, and emits every cell; each cell is replayed as one-line programs in five operand renderings (literal, variable, document field, shared variable, marker functions showing evaluation order / short circuit). Seeded instantiation extends value classes.",
+   note="Trusts TLC and the section 3 tables; != <= >= on unset operands, non-finite results, the RE2 engine are not compared; seeded values use a Go port of the table that is cross-checked against the spec on every cell.",
+   tech="TLC-enumerated operator tables (JqValue) replayed as one-line programs on lang.EvalProgram"),
+ "C16": dict(cat="model_checking", ref="5 (C16), 4.4",
+   text="MC_Methods: TLC checks the algebraic laws of split/join, upper/lower, length, floor/ceil/round, pluck (fresh object, exact keys), num() over complete small domains and emits every case; each is replayed as a program and compared with the model's value; calls outside the contract must end ok or with a runtime error; seeded instantiation checks the laws on arbitrary UTF-8 strings and random doubles.",
+   note="Trusts TLC and JqValue; non-ASCII case mapping, overlapping-separator decompositions, num() of a number are law-only or not compared.",
+   tech="TLC-checked method laws over complete small domains, every case replayed on lang.EvalProgram"),
 }
 ALL = ["C%02d" % i for i in range(1, 21)]
 hooks_commits = subprocess.run(["git","-C","/repo","log","--format=%H %s"],capture_output=True,text=True).stdout.splitlines()
